@@ -323,7 +323,11 @@ func newCluster(cfg *Cfg, scratch string) *cluster {
 	for i := 0; i < cfg.N; i++ {
 		var nd Node
 		if cfg.Real {
-			nd = newRealNode(i, scratch)
+			var rev int64
+			if i < len(cfg.Revs) {
+				rev = cfg.Revs[i]
+			}
+			nd = newRealNode(i, scratch, rev)
 		} else {
 			m := NewModelNode(addr(i))
 			if i < len(cfg.Revs) && cfg.Revs[i] > 0 {
